@@ -244,3 +244,113 @@ $GEN{$NH(k int)}{int}{
 	$RET
 }`, entries: []*Entry{drive("$NG", "int", 1, nil), drive("$NH", "int", 1, nil)}},
 }
+
+// rangeShapes: range clauses whose meaning depends on HOW the iteration values are assigned (C04): with `=` the
+// values are assigned "as in an assignment statement" (index operands on the left are evaluated before any
+// assignment), conversions of the range expression, named collection types.
+var rangeShapes = []shape{
+	{name: "range-assign-second-operand-depends-on-first", decls: `
+$GEN{$NG(a int)}{int}{
+	src := []int{10, 20, 30, 40}
+	dst := make([]int, 4)
+	i := 3
+	for i, dst[i] = range src {
+		tr.Ev(1, i)
+	}
+	for _, d := range dst {
+		$YIELD{d + a}
+	}
+	xs := []int{5, 6, 7}
+	var v int
+	for xs[0], v = range xs {
+		$YIELD{v*10 + xs[0]}
+	}
+	m := map[int]int{}
+	k := 0
+	for k, m[k] = range []int{7, 8, 9} {
+	}
+	$YIELD{m[0]*100 + m[1]*10 + m[2]}
+	copyShifted := func() (out [4]int) {
+		j := 0
+		for j, out[j] = range src {
+		}
+		return
+	}
+	sh := copyShifted()
+	$YIELD{sh[0] + sh[1] + sh[2]}
+	$RET
+}`, entries: []*Entry{drive("$NG", "int", 1, [][]int{{0}, {1}})}},
+	{name: "range-over-rune-slice-conversion", decls: `
+$GEN{$NG(a int)}{int}{
+	s := "héllo, 日本"
+	for i := range []rune(s) {
+		$YIELD{i}
+	}
+	for i, r := range []rune(s) {
+		$YIELD{i*1000 + int(r)%1000}
+	}
+	var k int
+	for k = range []rune(s[a:]) {
+	}
+	$YIELD{k}
+	for i := range []byte(s) {
+		if i > 3 {
+			break
+		}
+		$YIELD{i}
+	}
+	n := 0
+	for range []rune(s) {
+		n++
+	}
+	$YIELD{n}
+	count := func(t string) (c int) {
+		for i := range []rune(t) {
+			c += i
+		}
+		return
+	}
+	$YIELD{count(s)}
+	$RET
+}`, entries: []*Entry{drive("$NG", "int", 1, [][]int{{0}, {1}})}},
+	{name: "range-over-named-collection-types", decls: `
+type $NInts []int
+type $NDict map[string]int
+type $NPipe chan int
+type $NGrid [2][2]int
+
+$GEN{$NG(a int)}{int}{
+	for i, v := range ($NInts{4, 5, a}) {
+		$YIELD{i*10 + v}
+	}
+	for k, v := range ($NDict{"k": a}) {
+		$YIELD{len(k) + v}
+	}
+	p := make($NPipe, 2)
+	p <- a
+	p <- a + 1
+	close(p)
+	for v := range p {
+		$YIELD{v}
+	}
+	g := $NGrid{{1, 2}, {3, a}}
+	for _, row := range g {
+		for _, c := range row {
+			$YIELD{c}
+		}
+	}
+	var ro <-chan int = tr.Chan(8, 9)
+	for v := range ro {
+		$YIELD{v}
+	}
+	$RET
+}`, entries: []*Entry{drive("$NG", "int", 1, [][]int{{0}, {2}})}},
+}
+
+func rangeShapePrograms() []*Program {
+	var out []*Program
+	for i, sh := range rangeShapes {
+		out = append(out, mkShapeProgram("A"+itoa(100+i), sh))
+	}
+	return out
+}
